@@ -18,6 +18,7 @@
 // ops (doubles are u64 bit patterns, a state is n of them):
 //   proj <x>                         -> ret=<b> x=<xout> | <events>
 //   sat <x>                          -> sat=<b> | <events>
+//   params                           -> params eps=<bits> cosa=<bits> backoff=<bits> maxc=<k> rhos=<bits> | params none
 //   anchor <x>                       -> ok                            (AtlasStateSpace::anchorChart; no-op for proj)
 //   sample u | sample n <x> <d> | sample g <x> <sd>   -> s=<x> | <events>
 //   geo <interp> <from> <to>         -> ok=<b> n=<k> <states> | <events>
@@ -48,6 +49,8 @@
 #include <ompl/geometric/planners/informedtrees/BITstar.h>
 #include <ompl/util/Console.h>
 #include <ompl/util/RandomNumbers.h>
+#include <ompl/base/spaces/constraint/AtlasChart.h>
+#include <dlfcn.h>
 #include <cmath>
 #include <map>
 #include <memory>
@@ -70,6 +73,178 @@ static void evVec(const V &x)
 {
     for (Eigen::Index i = 0; i < x.size(); ++i)
         evTok(vp::bits(x[i]));
+}
+
+// ------------------------------------------------------------------------------------------ chart-level recording
+// AtlasChart's methods and AtlasStateSpace::getChart/owningChart/sampleChart are not virtual.  They are exported by
+// libompl.so and every call to them from AtlasStateSpace.cpp / TangentBundleStateSpace.cpp goes through the PLT, so
+// the harness *interposes* them: it defines the same member functions (same mangled names; the executable's
+// definition pre-empts the library's), records the call and forwards to the library's own code found with
+// dlsym(RTLD_NEXT).  No source hook; the code that runs is the library's.  Only top-level calls are recorded
+// (g_nest > 0 while inside an interposed call: psi calls phi, getChart calls owningChart/newChart/psiInverse/...).
+//   GC <x:n> <force> <cid|-1> <created>   AtlasStateSpace::getChart(state, force, &created)
+//   OC <x:n> <cid|-1>                      AtlasStateSpace::owningChart(state)
+//   SC <cid> <origin:n>                    AtlasStateSpace::sampleChart()
+//   PI <cid> <x:n> <u:k>                   AtlasChart::psiInverse(x, u)
+//   PSI <cid> <u:k> <ret> <x:n>            AtlasChart::psi(u, x)
+//   PHI <cid> <u:k> <x:n>                  AtlasChart::phi(u, x)
+//   IP <cid> <u:k> <ret>                   AtlasChart::inPolytope(u)
+//   BC <cid>                               AtlasChart::borderCheck(u)
+static int g_nest = 0;
+static std::map<const void *, int> g_chartId;
+static std::string chartTok(const void *c)
+{
+    if (c == nullptr)
+        return "-1";
+    auto it = g_chartId.find(c);
+    if (it == g_chartId.end())
+        it = g_chartId.emplace(c, (int)g_chartId.size()).first;
+    return std::to_string(it->second);
+}
+struct Nest
+{
+    bool top;
+    Nest() : top(g_nest == 0 && g_rec)
+    {
+        ++g_nest;
+    }
+    ~Nest()
+    {
+        --g_nest;
+    }
+};
+template <class Fn>
+static Fn nextSym(const char *name)
+{
+    void *p = dlsym(RTLD_NEXT, name);
+    if (!p)
+    {
+        std::cerr << "interposition: symbol not found: " << name << "\n";
+        std::abort();
+    }
+    return reinterpret_cast<Fn>(p);
+}
+using CRef = const Eigen::Ref<const Eigen::VectorXd> &;
+using MRef = Eigen::Ref<Eigen::VectorXd>;
+
+bool ompl::base::AtlasChart::psi(CRef u, MRef out) const
+{
+    using Fn = bool (*)(const AtlasChart *, CRef, MRef);
+    static Fn real = nextSym<Fn>("_ZNK4ompl4base10AtlasChart3psiERKN5Eigen3RefIKNS2_6MatrixIdLin1ELi1ELi0ELin1ELi1EEELi0ENS2_11InnerStrideILi1EEEEENS3_IS5_Li0ES8_EE");
+    Nest nst;
+    Eigen::VectorXd uin = u;
+    bool r = real(this, u, out);
+    if (nst.top)
+    {
+        evTok("PSI");
+        evTok(chartTok(this));
+        evVec(uin);
+        evTok(r ? "1" : "0");
+        evVec(out);
+    }
+    return r;
+}
+void ompl::base::AtlasChart::phi(CRef u, MRef out) const
+{
+    using Fn = void (*)(const AtlasChart *, CRef, MRef);
+    static Fn real = nextSym<Fn>("_ZNK4ompl4base10AtlasChart3phiERKN5Eigen3RefIKNS2_6MatrixIdLin1ELi1ELi0ELin1ELi1EEELi0ENS2_11InnerStrideILi1EEEEENS3_IS5_Li0ES8_EE");
+    Nest nst;
+    Eigen::VectorXd uin = u;
+    real(this, u, out);
+    if (nst.top)
+    {
+        evTok("PHI");
+        evTok(chartTok(this));
+        evVec(uin);
+        evVec(out);
+    }
+}
+void ompl::base::AtlasChart::psiInverse(CRef x, MRef out) const
+{
+    using Fn = void (*)(const AtlasChart *, CRef, MRef);
+    static Fn real = nextSym<Fn>("_ZNK4ompl4base10AtlasChart10psiInverseERKN5Eigen3RefIKNS2_6MatrixIdLin1ELi1ELi0ELin1ELi1EEELi0ENS2_11InnerStrideILi1EEEEENS3_IS5_Li0ES8_EE");
+    Nest nst;
+    Eigen::VectorXd xin = x;
+    real(this, x, out);
+    if (nst.top)
+    {
+        evTok("PI");
+        evTok(chartTok(this));
+        evVec(xin);
+        evVec(out);
+    }
+}
+bool ompl::base::AtlasChart::inPolytope(CRef u, const Halfspace *i1, const Halfspace *i2) const
+{
+    using Fn = bool (*)(const AtlasChart *, CRef, const Halfspace *, const Halfspace *);
+    static Fn real = nextSym<Fn>("_ZNK4ompl4base10AtlasChart10inPolytopeERKN5Eigen3RefIKNS2_6MatrixIdLin1ELi1ELi0ELin1ELi1EEELi0ENS2_11InnerStrideILi1EEEEEPKNS1_9HalfspaceESE_");
+    Nest nst;
+    bool r = real(this, u, i1, i2);
+    if (nst.top)
+    {
+        evTok("IP");
+        evTok(chartTok(this));
+        evVec(u);
+        evTok(r ? "1" : "0");
+    }
+    return r;
+}
+void ompl::base::AtlasChart::borderCheck(CRef v) const
+{
+    using Fn = void (*)(const AtlasChart *, CRef);
+    static Fn real = nextSym<Fn>("_ZNK4ompl4base10AtlasChart11borderCheckERKN5Eigen3RefIKNS2_6MatrixIdLin1ELi1ELi0ELin1ELi1EEELi0ENS2_11InnerStrideILi1EEEEE");
+    Nest nst;
+    real(this, v);
+    if (nst.top)
+    {
+        evTok("BC");
+        evTok(chartTok(this));
+    }
+}
+ompl::base::AtlasChart *ompl::base::AtlasStateSpace::getChart(const StateType *state, bool force, bool *created) const
+{
+    using Fn = AtlasChart *(*)(const AtlasStateSpace *, const StateType *, bool, bool *);
+    static Fn real = nextSym<Fn>("_ZNK4ompl4base15AtlasStateSpace8getChartEPKNS1_9StateTypeEbPb");
+    Nest nst;
+    bool before = created ? *created : false;
+    AtlasChart *c = real(this, state, force, created);
+    if (nst.top)
+    {
+        evTok("GC");
+        evVec(*state);
+        evTok(force ? "1" : "0");
+        evTok(chartTok(c));
+        evTok((created && *created && !before) ? "1" : "0");
+    }
+    return c;
+}
+ompl::base::AtlasChart *ompl::base::AtlasStateSpace::owningChart(const StateType *state) const
+{
+    using Fn = AtlasChart *(*)(const AtlasStateSpace *, const StateType *);
+    static Fn real = nextSym<Fn>("_ZNK4ompl4base15AtlasStateSpace11owningChartEPKNS1_9StateTypeE");
+    Nest nst;
+    AtlasChart *c = real(this, state);
+    if (nst.top)
+    {
+        evTok("OC");
+        evVec(*state);
+        evTok(chartTok(c));
+    }
+    return c;
+}
+ompl::base::AtlasChart *ompl::base::AtlasStateSpace::sampleChart() const
+{
+    using Fn = AtlasChart *(*)(const AtlasStateSpace *);
+    static Fn real = nextSym<Fn>("_ZNK4ompl4base15AtlasStateSpace11sampleChartEv");
+    Nest nst;
+    AtlasChart *c = real(this);
+    if (nst.top)
+    {
+        evTok("SC");
+        evTok(chartTok(c));
+        evVec(*c->getOrigin());
+    }
+    return c;
 }
 
 // ------------------------------------------------------------------------------------------ constraints
@@ -148,7 +323,7 @@ struct RecCon : ob::Constraint
     void function(const Eigen::Ref<const Eigen::VectorXd> &x, Eigen::Ref<Eigen::VectorXd> out) const override
     {
         eval(x, out);
-        if (g_rec && depth == 0)
+        if (g_rec && depth == 0 && g_nest == 0)
         {
             evTok("F");
             evVec(x);
@@ -158,7 +333,7 @@ struct RecCon : ob::Constraint
 
     void jacobian(const Eigen::Ref<const Eigen::VectorXd> &x, Eigen::Ref<Eigen::MatrixXd> out) const override
     {
-        if (g_rec && depth == 0)
+        if (g_rec && depth == 0 && g_nest == 0)
         {
             evTok("J");
             evVec(x);
@@ -224,10 +399,10 @@ struct RecCon : ob::Constraint
     bool project(Eigen::Ref<Eigen::VectorXd> x) const override
     {
         Eigen::VectorXd in = x;
-        if (g_rec && depth == 0)
+        if (g_rec && depth == 0 && g_nest == 0)
             evTok("B");
         bool r = ob::Constraint::project(x);
-        if (g_rec && depth == 0)
+        if (g_rec && depth == 0 && g_nest == 0)
         {
             evTok("P");
             evVec(in);
@@ -240,7 +415,7 @@ struct RecCon : ob::Constraint
     bool isSatisfied(const Eigen::Ref<const Eigen::VectorXd> &x) const override
     {
         bool r = ob::Constraint::isSatisfied(x);
-        if (g_rec && depth == 0)
+        if (g_rec && depth == 0 && g_nest == 0)
         {
             evTok("S");
             evVec(x);
@@ -248,6 +423,20 @@ struct RecCon : ob::Constraint
         }
         return r;
     }
+    double distance(const Eigen::Ref<const Eigen::VectorXd> &x) const override
+    {
+        ++depth;   // its inner function() call is not a separate oracle question
+        double d = ob::Constraint::distance(x);
+        --depth;
+        if (g_rec && depth == 0 && g_nest == 0)
+        {
+            evTok("CD");
+            evVec(x);
+            evTok(vp::bits(d));
+        }
+        return d;
+    }
+    using ob::Constraint::distance;
     using ob::Constraint::function;
     using ob::Constraint::isSatisfied;
     using ob::Constraint::jacobian;
@@ -282,6 +471,14 @@ template <class Base>
 struct Rec : Base
 {
     using Base::Base;
+    std::string atlasParams() const
+    {
+        if constexpr (std::is_base_of_v<ob::AtlasStateSpace, Base>)
+            return "eps=" + vp::bits(this->epsilon_) + " cosa=" + vp::bits(this->cos_alpha_) + " backoff=" + vp::bits(this->backoff_) +
+                   " maxc=" + std::to_string(this->maxChartsPerExtension_) + " rhos=" + vp::bits(this->rho_s_);
+        else
+            return "none";
+    }
     bool discreteGeodesic(const ob::State *from, const ob::State *to, bool interpolate,
                           std::vector<ob::State *> *geodesic) const override
     {
@@ -467,6 +664,15 @@ int main()
                     atlas->anchorChart(a);
                 std::cout << "ok\n";
             }
+            else if (op == "params" && t.size() == 1)
+            {
+                std::string ps = "none";
+                if (auto *r1 = dynamic_cast<Rec<ob::AtlasStateSpace> *>(css.get()))
+                    ps = r1->atlasParams();
+                else if (auto *r2 = dynamic_cast<Rec<ob::TangentBundleStateSpace> *>(css.get()))
+                    ps = r2->atlasParams();
+                std::cout << "params " << ps << "\n";
+            }
             else if (op == "sat" && t.size() == 1 + n)
             {
                 readState(t, i, a);
@@ -597,6 +803,7 @@ int main()
                 if (atlas)
                 {
                     atlas->clear();
+                    g_chartId.clear();
                     atlas->anchorChart(a);
                     atlas->anchorChart(b);
                 }
